@@ -164,6 +164,24 @@ def run(repo: Repo, chk: Check):
                 if isinstance(lab, tuple) and lab[0] == "exc":
                     pruned.add((n.id, i))
     chk.assume("statements inside the except handlers and the finally block of process_input do not raise (traceback formatting, logging while ENABLE_LOGGING is False)")
+    # ... which is checked: log() writes to a file only under ENABLE_LOGGING, and the value that the module ends up with is False
+    flag_sts = m.assigns.get("ENABLE_LOGGING", [])
+    if flag_sts:
+        last = flag_sts[-1]
+        v = getattr(last, "value", None)
+        is_false = isinstance(v, ast.Constant) and v.value is False
+        if is_false:
+            chk.ok("R14.c", "mod_daemon:ENABLE_LOGGING is off in the daemon", None)
+        elif isinstance(v, ast.Compare) and "__name__" in norm(v) or isinstance(v, ast.Constant) and v.value is True:
+            chk.bad("R14.c", "mod_daemon:ENABLE_LOGGING is off in the daemon",
+                    f"ENABLE_LOGGING = {norm(v)} is true in the daemon process: log() then writes every request and reply to a file, outside the try and inside 'finally' of "
+                    f"process_input; a line that cannot be encoded (lone surrogate, undecodable bytes) raises there, no reply is written and the request loop ends", None, f"{path}:{last.lineno}")
+        else:
+            raise AnalysisError(f"mod_daemon: value of ENABLE_LOGGING not understood: {norm(v) if v is not None else None}")
+    else:
+        logs = [f for f in ast.walk(m.tree) if isinstance(f, ast.FunctionDef) and f.name == "log"]
+        if logs and any(isinstance(x, ast.Call) and norm(x.func) in ("open",) or isinstance(x, ast.Attribute) and x.attr in ("write", "flush") for x in ast.walk(logs[0])):
+            raise AnalysisError("mod_daemon: log() writes to a file but the switch ENABLE_LOGGING is gone")
     live = cfg.reachable(avoid_edges=pruned)
     # (the canonical form of process_input may carry an inlined copy of the helper that prints the reply)
     def is_reply(c):
